@@ -37,6 +37,7 @@ var (
 	verifGetErr     error
 	verifGetCalls   int
 	verifErrNoNode  = errors.New("verif: no such redis")
+	verifErrFn      = errors.New("verif: pipeline function failed")
 	verifBackground = context.Background()
 )
 
@@ -86,14 +87,15 @@ const (
 )
 
 type verifEnv struct {
-	r     *Redis
-	n     *verifNode
-	b     *verifBreaker
-	ctx   context.Context
-	plain bool
-	mode  int
-	slen  int
-	noBrk bool // the method documents that it bypasses the breaker
+	r      *Redis
+	n      *verifNode
+	b      *verifBreaker
+	ctx    context.Context
+	plain  bool
+	mode   int
+	slen   int
+	noBrk  bool // the method documents that it bypasses the breaker
+	direct bool // the method is handed its node by the caller (no getRedis)
 }
 
 func verifNewEnv(plain bool, mode int) *verifEnv {
@@ -182,10 +184,12 @@ func (e *verifEnv) pairsOK(got []Pair) bool {
 // issued: what reached go-redis.
 func (e *verifEnv) issued(cmd string, strs []string, ints []int64, flts []float64) *verifCall {
 	if e.mode == verifNoRedis {
-		verifAssert(len(e.n.calls) == 0, "getRedis fails: no command is issued")
+		verifAssert(len(e.n.calls) == 0, "no node: no command is issued")
 		return nil
 	}
-	verifAssert(verifGetCalls == 1, "the node is obtained through getRedis once")
+	if !e.direct {
+		verifAssert(verifGetCalls == 1, "the node is obtained through getRedis once")
+	}
 	verifAssert(len(e.n.calls) == 1, "exactly one go-redis command is issued")
 	c := &e.n.calls[0]
 	verifAssert(c.cmd == cmd, "the corresponding go-redis command is issued")
@@ -246,7 +250,11 @@ func (e *verifEnv) outcome(err error, valueOK, isZero bool, nilRule int) {
 		verifAssert(err == verifErrOther, "an error other than redis.Nil is returned unchanged")
 		verifReach("error-passed")
 	case verifNoRedis:
-		verifAssert(err == verifErrNoNode, "an error of getRedis is returned unchanged")
+		if e.direct {
+			verifAssert(err == ErrNilNode, "a nil node is reported as ErrNilNode")
+		} else {
+			verifAssert(err == verifErrNoNode, "an error of getRedis is returned unchanged")
+		}
 		verifReach("no-redis")
 	}
 }
@@ -1550,6 +1558,87 @@ func verifMethods() []verifMethod {
 			}
 			e.issued("ScriptLoad", vS(sc), nil, nil)
 			e.outcome(err, v == e.n.s, v == "", verifNilEither)
+		}},
+		// ---- blocking pops: the caller hands over the node; documented to bypass the breaker
+		{"BLPop", func(e *verifEnv) {
+			k := e.str("key")
+			e.n.ss = []string{k, verifStringN("ans", 2)} // BLPOP answers [key, element]
+			e.noBrk, e.direct = true, true
+			var node Node
+			if e.mode != verifNoRedis {
+				node = e.n
+			}
+			var v string
+			var err error
+			if e.plain {
+				v, err = e.r.BLPop(node, k)
+			} else {
+				v, err = e.r.BLPopCtx(e.ctx, node, k)
+			}
+			e.issued("BLPop", vS(k), vI(int64(blockingQueryTimeout)), nil)
+			e.outcome(err, v == e.n.ss[1], v == "", verifNilEither)
+		}},
+		{"BLPopEx", func(e *verifEnv) {
+			k := e.str("key")
+			e.n.ss = []string{k, verifStringN("ans", 2)}
+			e.noBrk, e.direct = true, true
+			var node Node
+			if e.mode != verifNoRedis {
+				node = e.n
+			}
+			var v string
+			var ok bool
+			var err error
+			if e.plain {
+				v, ok, err = e.r.BLPopEx(node, k)
+			} else {
+				v, ok, err = e.r.BLPopExCtx(e.ctx, node, k)
+			}
+			e.issued("BLPop", vS(k), vI(int64(blockingQueryTimeout)), nil)
+			e.outcome(err, verifAnd(ok, v == e.n.ss[1]), verifAnd(!ok, v == ""), verifNilEither)
+		}},
+		{"BLPopWithTimeout", func(e *verifEnv) {
+			k, d := e.str("key"), time.Duration(verifInt64("timeout"))
+			e.n.ss = []string{k, verifStringN("ans", 2)}
+			e.noBrk, e.direct = true, true
+			var node Node
+			if e.mode != verifNoRedis {
+				node = e.n
+			}
+			var v string
+			var err error
+			if e.plain {
+				v, err = e.r.BLPopWithTimeout(node, d, k)
+			} else {
+				v, err = e.r.BLPopWithTimeoutCtx(e.ctx, node, d, k)
+			}
+			e.issued("BLPop", vS(k), vI(int64(d)), nil)
+			e.outcome(err, v == e.n.ss[1], v == "", verifNilEither)
+		}},
+		// ---- pipeline
+		{"Pipelined", func(e *verifEnv) {
+			runs := 0
+			var fnErr error
+			if verifChoose("fn-fails", 2) == 1 {
+				fnErr = verifErrFn
+			}
+			fn := func(p Pipeliner) error { runs++; return fnErr }
+			var err error
+			if e.plain {
+				err = e.r.Pipelined(fn)
+			} else {
+				err = e.r.PipelinedCtx(e.ctx, fn)
+			}
+			e.issued("Pipelined", nil, nil, nil)
+			if e.mode != verifNoRedis {
+				verifAssert(runs == 1, "Pipelined: the caller's function is handed to go-redis (it runs once)")
+			}
+			if fnErr != nil && e.mode != verifNoRedis {
+				verifAssert(err == fnErr, "Pipelined: the function's error is returned unchanged")
+				verifReach("pipeline-fn-error")
+			} else {
+				e.errOnly(err)
+			}
 		}},
 		// ---- connection
 		{"Ping", func(e *verifEnv) {
